@@ -2,6 +2,7 @@
 """Shared by C05, C06, C07: escape-set obligations (E3) and crash-construct
 obligations (G rules) restricted to the functions reachable from an entry point."""
 import json
+import ast as ast_mod
 import os
 
 from ..core import AnalysisError, VERIF_DIR, short
@@ -70,6 +71,17 @@ def escape_obligations(ctx, rule, repo, entry, tolerant, allowed_families, what)
             ctx.holds(rule, mod, node, 'abstract stub; concrete classes of the package override it',
                       construct=cons, trivial=True)
             continue
+        # the message held in a local (`msg = "..."; raise E(msg)`): matched by the text with the
+        # local written out
+        if node is not None and isinstance(node, ast_mod.Raise) and isinstance(node.exc, ast_mod.Call) and \
+                len(node.exc.args) == 1 and isinstance(node.exc.args[0], ast_mod.Name) and origin_fn is not None:
+            nm_ = node.exc.args[0].id
+            defs_ = [st_.value for st_ in ast_mod.walk(origin_fn.node) if isinstance(st_, ast_mod.Assign)
+                     and len(st_.targets) == 1 and isinstance(st_.targets[0], ast_mod.Name) and st_.targets[0].id == nm_]
+            if len(defs_) == 1:
+                import copy as _copy
+                n2 = ast_mod.Raise(exc=ast_mod.Call(func=node.exc.func, args=[defs_[0]], keywords=node.exc.keywords), cause=None)
+                w = (w[0], ast_mod.unparse(n2), w[2], w[3]) + tuple(w[4:])
         ent = rev.get('%s|%s' % (w[3], cls))
         if ent is None or w[1][:60] not in ent['raises']:
             # the same reviewed raise statement moved into a helper of the same class / module
